@@ -125,8 +125,8 @@ def decode_op(t):
 
 
 def strategy():
-    cls = st.integers(0, CLASS_SPACE - 1).map(decode_class)
-    op = st.tuples(st.integers(0, 13), st.integers(0, 16 ** 5 - 1)).map(decode_op)
+    cls = worldops.packed(CLASS_SPACE).map(decode_class)
+    op = st.tuples(st.integers(0, 13), worldops.packed(16 ** 5)).map(decode_op)
     return st.fixed_dictionaries({
         'classes': st.lists(cls, min_size=2, max_size=6),
         'handlers': st.lists(st.integers(0, 23), min_size=1, max_size=6),
